@@ -2,8 +2,10 @@ package c20
 
 import (
 	"bytes"
+	"encoding/json"
 	"errors"
 	"fmt"
+	"regexp"
 	"strings"
 	"time"
 
@@ -68,6 +70,10 @@ func advValue(rd *core.Rand) interface{} {
 	}
 	return advString(rd)
 }
+
+// value tokens whose type can be flipped without changing their characters
+var jsonStrLiteral = regexp.MustCompile(`:("(?:-?[0-9]+(?:\\.[0-9]+)?|true|false|null)")[,}]`)
+var jsonBareLiteral = regexp.MustCompile(`:(-?[0-9]+(?:\\.[0-9]+)?|true|false)[,}]`)
 
 var levels = []logrus.Level{logrus.DebugLevel, logrus.InfoLevel, logrus.WarnLevel, logrus.ErrorLevel}
 
@@ -333,7 +339,37 @@ func oneHistory(r *core.Run, format string, key []byte, specs []entrySpec, adver
 		}
 		mut := make([][]byte, len(lines))
 		copy(mut, lines)
-		switch rd.Intn(5) {
+		switch rd.Intn(6) {
+		case 5: // JSON: change the TYPE of a value while keeping its characters ("3" <-> 3, "true" <-> true): the field
+			// means something else to every JSON reader, so it is a change of the entry whatever the parser reports
+			if format != "json" {
+				continue
+			}
+			l := string(lines[i])
+			var cand [][2]int // [start, end) of a value token to re-type
+			for _, m := range jsonStrLiteral.FindAllStringSubmatchIndex(l, -1) {
+				cand = append(cand, [2]int{m[2], m[3]})
+			}
+			for _, m := range jsonBareLiteral.FindAllStringSubmatchIndex(l, -1) {
+				cand = append(cand, [2]int{m[2], m[3]})
+			}
+			if len(cand) == 0 {
+				continue
+			}
+			c := cand[rd.Intn(len(cand))]
+			tok := l[c[0]:c[1]]
+			if tok[0] == '"' {
+				tok = tok[1 : len(tok)-1]
+			} else {
+				tok = "\"" + tok + "\""
+			}
+			nl := l[:c[0]] + tok + l[c[1]:]
+			var probe map[string]interface{}
+			if json.Unmarshal([]byte(nl), &probe) != nil || strings.Contains(l[max(0, c[0]-12):c[0]], "integrity") {
+				continue
+			}
+			mut[i] = []byte(nl)
+			mustFailBy(r, "edit-undetected:"+format, fmt.Sprintf("line %d: value %s re-typed to %s", i, l[c[0]:c[1]], tok), verifyOp(r, format, key, joinLines(mut)), protectedAfter(format, mut, i))
 		case 0: // edit one byte of the line; counts as a change when the parsed content differs
 			l := append([]byte{}, lines[i]...)
 			p := rd.Intn(len(l))
